@@ -171,6 +171,16 @@ def r1(ctx) -> None:
     ok = "enumerate((list_value for list_value in value if not isinstance(list_value, dict)), start=1)" in txt and "[str(index), list_value]" in txt and "list_value += [str(index)]" in txt
     ctx.ob("C16-R1", "flatten_parameter_dict/numbering", ok, fd, fd.node, "the dict loader numbers the same way (start=1, option dicts skipped)",
            construct="enumerate(non-dict items, start=1) -> str(index)")
+    # "has this entry a label?" is asked after scientific-notation strings were turned into numbers
+    for f_, var in ((fl_, "item"), (fd, "list_value")):
+        tests = [c for c in lib.calls(f_, nested=True) if isinstance(c.func, ast.Name) and c.func.id == "any" and c.args
+                 and isinstance(c.args[0], ast.GeneratorExp) and "isinstance(v, str)" in norm(c.args[0].elt).replace(c.args[0].generators[0].target.id if isinstance(c.args[0].generators[0].target, ast.Name) else "v", "v")]
+        oks = bool(tests) and all(norm(t.args[0].generators[0].iter) in (f"sanitize_parameter_list({var}.copy())", f"sanitize_parameter_list(list({var}))",
+                                                                        f"sanitize_parameter_list({var}[:])") for t in tests)
+        ctx.ob("C16-R1", f"{f_.name}/label-test-after-sanitising", oks, f_, tests[0] if tests else f_.node,
+               "yaml reads 1e3 as the string '1e3'; it is a value, so the test 'does the entry contain a label (a str)?' must look at the "
+               "sanitised copy - otherwise the entry gets no number and ends up with the empty label",
+               construct=lib.short(tests[0], 110) if tests else f"def {f_.name}")
     ok = "yield (f'{key}.{sub_key}', sub_value, sub_dict)" in txt
     ctx.ob("C16-R1", "flatten_parameter_dict/nested-labels", ok, fd, fd.node, "nested groups are joined with '.'", construct="yield f'{key}.{sub_key}', ...")
     fdct = ctx.fn(PRS, "Parameters.from_dict")
